@@ -1,6 +1,7 @@
 package main
 
 import (
+	"runtime"
 	"reflect"
 	"fmt"
 	"strings"
@@ -490,6 +491,27 @@ func oracleC15(res *Result, c *Case) {
 				if got == nil || len(got.Frames) != len(want.Frames) {
 					res.fail(c, "C15", fmt.Sprintf("%s: exception %d does not carry the frames of layer %T", st.Name, i, l), "C15:exception-frames")
 					continue
+				}
+				// independently of the library's own stack conversion: a local layer's frames are
+				// the program counters it captured, as the Go runtime resolves them
+				if sp, ok := l.(errbase.StackTraceProvider); ok && st.Name == "local" {
+					pcs := sp.StackTrace()
+					if len(pcs) == len(got.Frames) {
+						res.OracleEvals["C15.frames_vs_runtime"]++
+						for j, fr := range pcs {
+							pc := uintptr(fr) - 1
+							fn := runtime.FuncForPC(pc)
+							if fn == nil {
+								continue
+							}
+							_, line := fn.FileLine(pc)
+							g := got.Frames[len(pcs)-1-j]
+							if g.Lineno != line || !strings.HasSuffix(fn.Name(), g.Function) {
+								res.fail(c, "C15", fmt.Sprintf("%s: exception %d frame %d is %s:%d, the layer captured %s:%d", st.Name, i, j, g.Function, g.Lineno, fn.Name(), line), "C15:exception-frames-runtime")
+								break
+							}
+						}
+					}
 				}
 				for j := range want.Frames {
 					if got.Frames[j].Function != want.Frames[j].Function || got.Frames[j].Lineno != want.Frames[j].Lineno ||
